@@ -11,6 +11,9 @@ import Geodesy.Model.Registry
 import Geodesy.Lemmas.Real
 import Mathlib.Tactic.Linarith
 import Mathlib.Tactic.FieldSimp
+import Geodesy.Lemmas.Conic
+import Mathlib.Analysis.SpecialFunctions.Complex.Arg
+import Mathlib.Analysis.Calculus.Deriv.MeanValue
 
 namespace Geodesy
 namespace C06
@@ -130,6 +133,90 @@ theorem geocentric_latitude (el : Ellipsoid ℝ) (hf0 : 0 ≤ el.f) (hf1 : el.f 
       Ellipsoid.eccentricitySquared, one, two, scalar_atan, scalar_tan, Real.tan_arctan]
     rw [show (1 - el.f * (2 - el.f)) * Real.tan phi / (1 - el.f * (2 - el.f)) = Real.tan phi by field_simp]
     exact Real.arctan_tan h1 h2
+
+/-! ### the other auxiliary latitudes: odd, fixing the equator and the poles, increasing -/
+
+/-- the Fourier sine series of the library is odd in its argument and vanishes at multiples of π -/
+theorem series_sin_neg (x : ℝ) (c : List ℝ) : Series.sin (-x) c = -Series.sin x c := by
+  simp [Series.sin, Real.cos_neg, Real.sin_neg]
+
+theorem series_sin_zero (c : List ℝ) : Series.sin 0 c = 0 := by simp [Series.sin]
+
+theorem series_sin_pi (c : List ℝ) : Series.sin Real.pi c = 0 := by simp [Series.sin]
+
+/-- **the conformal and the authalic latitude (series `φ + Σ c_k sin 2kφ`, both directions) are
+odd, fix the equator and fix the poles**, for every ellipsoid and coefficient set -/
+theorem series_latitudes (c : Series.Fourier ℝ) (phi : ℝ) :
+    Ellipsoid.latitudeFwdSeries (-phi) c = -Ellipsoid.latitudeFwdSeries phi c ∧
+    Ellipsoid.latitudeInvSeries (-phi) c = -Ellipsoid.latitudeInvSeries phi c ∧
+    Ellipsoid.latitudeFwdSeries 0 c = 0 ∧ Ellipsoid.latitudeInvSeries 0 c = 0 ∧
+    Ellipsoid.latitudeFwdSeries (Real.pi / 2) c = Real.pi / 2 ∧ Ellipsoid.latitudeInvSeries (Real.pi / 2) c = Real.pi / 2 ∧
+    Ellipsoid.latitudeFwdSeries (-(Real.pi / 2)) c = -(Real.pi / 2) := by
+  have hpi : (2 : ℝ) * (Real.pi / 2) = Real.pi := by ring
+  have hneg : (2 : ℝ) * -phi = -(2 * phi) := by ring
+  have hnegpi : (2 : ℝ) * -(Real.pi / 2) = -Real.pi := by ring
+  refine ⟨?_, ?_, ?_, ?_, ?_, ?_, ?_⟩ <;>
+    simp only [Ellipsoid.latitudeFwdSeries, Ellipsoid.latitudeInvSeries, two, hneg, hpi, hnegpi, mul_zero,
+      series_sin_neg, series_sin_zero, series_sin_pi, neg_zero, add_zero] <;> ring
+
+/-- **the rectifying latitude is odd and fixes the equator** (that it does not fix the poles is the
+known finding `rectifying-latitude-scaled`) -/
+theorem rectifying_latitude_odd (c : Series.Fourier ℝ) (phi : ℝ) :
+    Ellipsoid.latitudeGeographicToRectifying (-phi) c = -Ellipsoid.latitudeGeographicToRectifying phi c ∧
+    Ellipsoid.latitudeGeographicToRectifying 0 c = 0 := by
+  have hneg : (2 : ℝ) * -phi = -(2 * phi) := by ring
+  constructor <;>
+    simp only [Ellipsoid.latitudeGeographicToRectifying, two, hneg, mul_zero, series_sin_neg, series_sin_zero, add_zero] <;> ring
+
+/-- **the reduced (parametric) latitude: `tan β = (1 − f) tan φ`**, odd, fixing the equator -/
+theorem reduced_latitude (el : Ellipsoid ℝ) (hf1 : el.f < 1) (phi : ℝ) :
+    el.latitudeGeographicToReduced phi = Real.arctan ((1 - el.f) * Real.tan phi) ∧
+    el.latitudeGeographicToReduced (-phi) = -el.latitudeGeographicToReduced phi ∧
+    el.latitudeGeographicToReduced 0 = 0 := by
+  have hpos : 0 < 1 / (1 - el.f) := by
+    have : 0 < 1 - el.f := by linarith
+    positivity
+  have key : ∀ x : ℝ, el.latitudeGeographicToReduced x = Real.arctan ((1 - el.f) * Real.tan x) := by
+    intro x
+    simp only [Ellipsoid.latitudeGeographicToReduced, one]
+    show Complex.arg ⟨1 / (1 - el.f), Real.tan x⟩ = _
+    have hlt : |Complex.arg ⟨1 / (1 - el.f), Real.tan x⟩| < Real.pi / 2 := Complex.abs_arg_lt_pi_div_two_iff.mpr (Or.inl hpos)
+    have h := abs_lt.mp hlt
+    rw [← Real.arctan_tan h.1 h.2, Complex.tan_arg]
+    congr 1
+    have : (1 - el.f) ≠ 0 := by linarith
+    field_simp
+  refine ⟨key phi, ?_, ?_⟩
+  · rw [key, key, Real.tan_neg, mul_neg, Real.arctan_neg]
+  · rw [key]; simp
+
+/-- **the isometric latitude is odd, fixes the equator and is strictly increasing between the
+poles**, for every eccentricity `0 ≤ e < 1` -/
+theorem isometric_latitude (e : ℝ) (he0 : 0 ≤ e) (he1 : e < 1) :
+    (∀ x, Conic.psi e (-x) = -Conic.psi e x) ∧ Conic.psi e 0 = 0 ∧
+    StrictMonoOn (Conic.psi e) (Set.Ioo (-(Real.pi / 2)) (Real.pi / 2)) := by
+  refine ⟨fun x => ?_, by simp [Conic.psi], ?_⟩
+  · unfold Conic.psi
+    rw [Real.tan_neg, Real.arsinh_neg, Real.sin_neg]
+    have : (1 + e * -Real.sin x) / (1 - e * -Real.sin x) = ((1 + e * Real.sin x) / (1 - e * Real.sin x))⁻¹ := by
+      rw [inv_div]; ring_nf
+    rw [this, Real.log_inv]
+    ring
+  · apply strictMonoOn_of_deriv_pos (convex_Ioo _ _)
+    · intro x hx
+      have hd : HasDerivAt (Conic.psi e) _ x := Mercator.isometric_hasDerivAt e x he0 he1 hx.1 hx.2
+      exact hd.continuousAt.continuousWithinAt
+    · intro x hx
+      rw [interior_Ioo] at hx
+      have hd : HasDerivAt (Conic.psi e) _ x := Mercator.isometric_hasDerivAt e x he0 he1 hx.1 hx.2
+      rw [hd.deriv]
+      have hc : 0 < Real.cos x := Real.cos_pos_of_mem_Ioo hx
+      have hw : 0 < 1 - e ^ 2 * Real.sin x ^ 2 := by
+        have h1 : Real.sin x ^ 2 ≤ 1 := Real.sin_sq_le_one x
+        have h2 : e ^ 2 < 1 := by nlinarith
+        nlinarith [sq_nonneg (Real.sin x), sq_nonneg e]
+      have : 0 < 1 - e ^ 2 := by nlinarith
+      positivity
 
 /-! ### the built-in table -/
 
